@@ -118,15 +118,16 @@ CONSTANTS Peers,         \* peers of A (strings)
           MaxHolderWake, \* budget: HolderWakes steps
           Ghost,         \* TRUE: keep the ghost variables (needed by SleeperLearnsNewest, DeliveredOnce, NoNeedlessLoss);
                          \* FALSE: leave them at their initial values (smaller graph for the runs that emit edges)
-          Dev,
+          Dev,           \* enabled deviations (ordinary runs)
+          DevChoices,    \* {} for ordinary runs; a set of deviation sets for the combined sensitivity run: one
+                         \* behaviour family per choice (variable devv), violations are printed by Catch / CatchStep
           Emit
 
 DevNames == {"DevQueueOlderOvertakes", "DevNotClearedAfterDelivery", "DevOverflowDropsNewest", "DevQueueForAwakePeer",
              "DevAgentNeverQueues", "DevSleeperDropsTable", "DevSeenBlocksResync", "DevNoCommandSlot", "DevNoFrameSplit",
              "DevWithdrawIgnoresSequence", "DevReplayResurrectsWithdrawn"}
 ASSUME Dev \subseteq DevNames /\ WdOrigins \subseteq Origins /\ InfoOrigins \subseteq Origins /\ Bound >= 1 /\ FrameCap >= 1
-
-D(x) == x \in Dev
+       /\ \A c \in DevChoices : c \subseteq DevNames
 Seqs == 1..MaxSeq
 IsWd(o, n) == o \in WdOrigins /\ n \in WdSeqs
 RouteFrames == {[k |-> IF IsWd(o, n) THEN "wd" ELSE "adv", o |-> o, n |-> n] : o \in Origins, n \in Seqs}
@@ -148,13 +149,16 @@ VARIABLES mode,        \* [Peers -> "awake" | "sleeping"]   connected / disconne
           redelivered, \* ghost: a Deliver step contained an item that had been delivered already
           lastcmd,     \* ghost: the newest command that passed A ("none")
           nlive, nsleeps, nexp, nhw,   \* budgets
+          devv,        \* the deviations of this behaviour (= Dev unless DevChoices is used; never changes)
           last         \* observation of the last step (hidden by VIEW)
+
+D(x) == x \in devv
 
 ghosts == <<owed, lost, dlv, redelivered, lastcmd>>
 budgets == <<nlive, nsleeps, nexp, nhw>>
 core == <<mode, draining, q, msg, rcv, hold>>
-vars == <<core, ghosts, budgets, last>>
-view == <<core, ghosts, budgets>>
+vars == <<core, ghosts, budgets, devv, last>>
+view == <<core, ghosts, budgets, devv>>
 
 (* ---- receiver (flooder + tables of one agent) ---------------------------*)
 R0 == [tab |-> [o \in Origins |-> 0],    \* sequence of the stored route of origin o, 0 = none
@@ -258,6 +262,7 @@ Init ==
   /\ hold = R0 @@ [pend |-> "none"]
   /\ owed = {} /\ lost = [p \in Peers |-> {}] /\ dlv = [p \in Peers |-> {}] /\ redelivered = FALSE /\ lastcmd = "none"
   /\ nlive = 0 /\ nsleeps = 0 /\ nexp = 0 /\ nhw = 0
+  /\ devv \in (IF DevChoices = {} THEN {Dev} ELSE DevChoices)
   /\ last = [act |-> "Init"]
 
 HoldRcv == [tab |-> hold.tab, tomb |-> hold.tomb, info |-> hold.info, seen |-> hold.seen, iseen |-> hold.iseen,
@@ -380,11 +385,12 @@ HolderWakes ==
   /\ last' = [act |-> "HolderWakes", dev |-> {}]
   /\ UNCHANGED <<mode, draining, msg, rcv, hold, owed, dlv, redelivered, lastcmd, nlive, nsleeps, nexp>>
 
-Next ==
+Step ==
   \/ \E f \in Universe : Live(f)
   \/ \E p \in Peers : PeerSleeps(p) \/ PeerPolls(p) \/ Deliver(p) \/ ReceiverApply(p)
   \/ HolderSeenExpire
   \/ HolderWakes
+Next == Step /\ UNCHANGED devv
 
 Spec == Init /\ [][Next]_vars
 
@@ -414,32 +420,38 @@ NothingQueuedForAwake == \A p \in Peers : (mode[p] = "awake" /\ ~draining[p]) =>
 
 \* every QUEUED_STATE frame fits one frame
 FrameFits == \A p \in Peers : Len(msg[p]) <= FrameCap
-FrameAlwaysSendable == [][last'.act = "Deliver" => last'.res = "sent"]_vars
+FrameAlwaysSendableStep == last'.act = "Deliver" => last'.res = "sent"
+FrameAlwaysSendable == [][FrameAlwaysSendableStep]_vars
 
 \* a delivered queue is cleared exactly once: nothing is delivered twice unless it was queued again
 DeliveredOnce == ~redelivered
 
 \* per origin only the newest node info is kept: an older one never replaces a newer one
-InfoNewestKept ==
-  [][\A p \in Peers, o \in Origins :
+InfoNewestKeptStep ==
+  \A p \in Peers, o \in Origins :
         (HasOrigin(q[p].info, o) /\ HasOrigin(q'[p].info, o) /\ last'.act = "Live")
-          => q'[p].info[IdxOf(q'[p].info, o)].n >= q[p].info[IdxOf(q[p].info, o)].n]_vars
+          => q'[p].info[IdxOf(q'[p].info, o)].n >= q[p].info[IdxOf(q[p].info, o)].n
+InfoNewestKept == [][InfoNewestKeptStep]_vars
 \* ... and an item is never overtaken: queued announcements / withdrawals keep their arrival order
-FifoKept ==
-  [][\A p \in Peers, k \in {"adv", "wd"} :
+FifoKeptStep ==
+  \A p \in Peers, k \in {"adv", "wd"} :
         last'.act = "Live" =>
           \/ q'[p][k] = q[p][k]
           \/ q'[p][k] = Append(q[p][k], Key(last'.f))
-          \/ (Len(q[p][k]) = Bound /\ q'[p][k] = Append(Tail(q[p][k]), Key(last'.f)))]_vars
+          \/ (Len(q[p][k]) = Bound /\ q'[p][k] = Append(Tail(q[p][k]), Key(last'.f)))
+FifoKept == [][FifoKeptStep]_vars
 \* at the bound the OLDEST item makes room: the frame just handled is in the queue afterwards
-OverflowKeepsNewest ==
-  [][\A p \in Peers : (last'.act = "Live" /\ last'.out[p] \in {"enqueue", "overflow", "supersede"})
-        => (IF last'.f.k = "cmd" THEN q'[p].cmd = last'.f.o ELSE Holds(q'[p][last'.f.k], Key(last'.f)))]_vars
+OverflowKeepsNewestStep ==
+  \A p \in Peers : (last'.act = "Live" /\ last'.out[p] \in {"enqueue", "overflow", "supersede"})
+        => (IF last'.f.k = "cmd" THEN q'[p].cmd = last'.f.o ELSE Holds(q'[p][last'.f.k], Key(last'.f)))
+OverflowKeepsNewest == [][OverflowKeepsNewestStep]_vars
 \* eviction only at the bound
-EvictionOnlyAtBound ==
-  [][\A p \in Peers : (last'.act = "Live" /\ last'.out[p] = "overflow") => Len(q[p][last'.f.k]) = Bound]_vars
+EvictionOnlyAtBoundStep ==
+  \A p \in Peers : (last'.act = "Live" /\ last'.out[p] = "overflow") => Len(q[p][last'.f.k]) = Bound
+EvictionOnlyAtBound == [][EvictionOnlyAtBoundStep]_vars
 \* queues are per peer: a delivery to one peer leaves the others' queues alone
-PerPeer == [][\A p \in Peers : (last'.act = "Deliver" /\ last'.p # p) => q'[p] = q[p]]_vars
+PerPeerStep == \A p \in Peers : (last'.act = "Deliver" /\ last'.p # p) => q'[p] = q[p]
+PerPeer == [][PerPeerStep]_vars
 
 \* the receiver's table is what the frames it has handled say: per origin the newest statement wins
 NewestOf(F) == CHOOSE f \in F : \A g \in F : g.n <= f.n
@@ -467,10 +479,46 @@ SleeperLearnsNewest ==
          /\ (OwedInfos(o) # {} /\ NewestOf(OwedInfos(o)) \notin lost[p]) => rcv[p].info[o] = NewestOf(OwedInfos(o)).n
     /\ (lastcmd # "none" /\ [k |-> "cmd", o |-> lastcmd, n |-> 0] \notin lost[p]) => lastcmd \in rcv[p].cseen
 \* nothing is lost except at the bound / by HolderWakes
-NoNeedlessLoss ==
-  [][\A p \in Peers : lost'[p] # lost[p] =>
+NoNeedlessLossStep ==
+  \A p \in Peers : lost'[p] # lost[p] =>
         \/ (last'.act = "Live" /\ last'.out[p] = "overflow")
-        \/ last'.act = "HolderWakes"]_vars
+        \/ last'.act = "HolderWakes"
+NoNeedlessLoss == [][NoNeedlessLossStep]_vars
+
+(* ---- the full-table design ------------------------------------------------*)
+(* With DevAgentNeverQueues + DevSleeperDropsTable (and no seen-cache        *)
+(* blocking) the as-built resync is a design of its own: the sleeper forgets *)
+(* what it learned via A and A replays everything it knows.  ReceiverExact   *)
+(* and WithdrawRespectsSequence speak about a receiver that keeps its table; *)
+(* they do not apply between the sleeper's disconnect and its next resync.   *)
+KeepsTable == ~D("DevSleeperDropsTable")
+
+(* ---- combined sensitivity run ----------------------------------------------*)
+(* DevChoices # {}: one TLC run explores every deviation set of DevChoices.  *)
+(* Catch (CONSTRAINT) / CatchStep (ACTION_CONSTRAINT) print which invariant /*)
+(* step property a state / transition violates and cut the search there, so  *)
+(* the run reports, per deviation set, everything that catches it.           *)
+StateInvs ==
+  <<[n |-> "TypeOK", v |-> TypeOK], [n |-> "QueueBounded", v |-> QueueBounded], [n |-> "WellFormed", v |-> WellFormed],
+    [n |-> "NothingQueuedForAwake", v |-> NothingQueuedForAwake], [n |-> "FrameFits", v |-> FrameFits],
+    [n |-> "DeliveredOnce", v |-> DeliveredOnce], [n |-> "ReceiverExact", v |-> KeepsTable => ReceiverExact],
+    [n |-> "NoResurrection", v |-> NoResurrection],
+    [n |-> "WithdrawRespectsSequence", v |-> KeepsTable => WithdrawRespectsSequence],
+    [n |-> "SleeperLearnsNewest", v |-> SleeperLearnsNewest]>>
+Catch ==
+  LET bad == {i \in 1..Len(StateInvs) : ~StateInvs[i].v} IN
+  IF bad = {} THEN TRUE
+  ELSE PrintT("CAUGHT " \o ToJson([dev |-> devv, by |-> {StateInvs[i].n : i \in bad}])) /\ FALSE
+StepProps ==
+  <<[n |-> "FrameAlwaysSendable", v |-> FrameAlwaysSendableStep], [n |-> "InfoNewestKept", v |-> InfoNewestKeptStep],
+    [n |-> "FifoKept", v |-> FifoKeptStep], [n |-> "OverflowKeepsNewest", v |-> OverflowKeepsNewestStep],
+    [n |-> "EvictionOnlyAtBound", v |-> EvictionOnlyAtBoundStep], [n |-> "PerPeer", v |-> PerPeerStep],
+    [n |-> "NoNeedlessLoss", v |-> NoNeedlessLossStep]>>
+CatchStep ==
+  LET bad == {i \in 1..Len(StepProps) : ~StepProps[i].v} IN
+  IF bad = {} THEN TRUE
+  ELSE PrintT("CAUGHT " \o ToJson([dev |-> devv, by |-> {StepProps[i].n : i \in bad}])) /\ FALSE
+\* how far each deviation set was explored (printed once per initial state by the sensitivity cfg's invariant)
 
 EmitEdge ==
   Emit => PrintT("EDGE " \o ToJson([s |-> [mode |-> mode, draining |-> draining, q |-> q, msg |-> msg, rcv |-> rcv, hold |-> hold],
